@@ -6,7 +6,7 @@
 From Coq Require Import List Arith Bool NArith.
 From Conductor Require Import Model.Loader Model.Planner Model.Exec Model.RunCase
   Proofs.ExecInv Proofs.ExecTheorems Proofs.ExecMain Proofs.PlannerInv Proofs.PlannerExact Proofs.ComposeExec Proofs.ComposeStop Proofs.ExecStatus Proofs.ComposeStatus.
-From Conductor Require Import Proofs.WfPlanDec.
+From Conductor Require Import Proofs.WfPlanDec Proofs.ComposeKill.
 Import ListNotations.
 
 (* Scope notes.  (1) "The oracle fails an operation" = its launch raises a ConductorError, or its process ends with a
@@ -111,6 +111,22 @@ Theorem C03_stop_early_end_to_end :
 Proof. exact cond_run_stop_early. Qed.
 Print Assumptions C03_stop_early_end_to_end.
 
+(* "... and the tasks still running are sent SIGTERM", end to end on the event list of a complete `cond run` (with or without
+   --stop-early; Executor.run_plan's `finally: terminate_processes()`): exactly one SIGTERM sweep happens; it reaches, each once,
+   EXACTLY the operations that were started as processes and whose exit has not been observed; it is empty without --stop-early,
+   and empty whenever no failure was observed. *)
+Theorem C03_sigterm_sweep_end_to_end :
+  forall fuel tasks c loaded ps evs,
+  cond_run fuel tasks c = ORun loaded ps (Some evs) -> 1 <= c_jobs c ->
+  exists k,
+    In (EKill k) evs /\ (forall k', In (EKill k') evs -> k' = k) /\ NoDup k /\
+    (forall o, In o k <-> (exists sl, In (EStart o sl) evs) /\ (forall rc, ~ In (EFinish o rc) evs) /\
+                           op_sync (op_at (ops ps) o) = false) /\
+    (c_stop c = false -> k = []) /\
+    ((forall e, In e evs -> is_failure e = false) -> k = []).
+Proof. exact cond_run_kill_set. Qed.
+Print Assumptions C03_sigterm_sweep_end_to_end.
+
 (* The verdict, end to end.  For every project the loader accepts, every configuration and every
    oracle: the event list of a complete `cond run` never contains the firing of
    `assert len(failed_task_ops) > 0`; it ends with "Done!" (exit status 0) EXACTLY when no launch
@@ -156,6 +172,20 @@ Example C03_verdict_nonvacuous :
   evs_of (cond_run 50 v_tasks (v_cfg 0)) = [EStart 0 None; EFinish 0 0; EStart 1 None; EFinish 1 0; EKill []; EDone] /\
   evs_of (cond_run 50 v_cached (v_cfg 0)) = [ECached 0; EKill []; EDone].
 Proof. vm_compute. repeat split. Qed.
+
+(* non-vacuity of the sweep: three parallel tasks under --stop-early -j3; one has succeeded, one fails, the third is still
+   running and is the one sent SIGTERM *)
+Definition k_tasks : list tdef :=
+  [ {| td_status := 2; td_deps := [1;2;3]; td_kind := KCommand; td_par := false; td_sr := true |};
+    {| td_status := 2; td_deps := []; td_kind := KCommand; td_par := true; td_sr := true |};
+    {| td_status := 2; td_deps := []; td_kind := KCommand; td_par := true; td_sr := true |};
+    {| td_status := 2; td_deps := []; td_kind := KCommand; td_par := true; td_sr := true |} ].
+Definition k_cfg : run_cfg :=
+  {| c_root := 0; c_again := false; c_jobs := 3; c_stop := true; c_launch_fail := []; c_rcs := [0;1;0;0]%N; c_picks := [1;0;0] |}.
+Example C03_sigterm_sweep_nonvacuous :
+  evs_of (cond_run 50 k_tasks k_cfg) =
+  [EStart 0 (Some 0); EStart 1 (Some 1); EStart 2 (Some 2); EFinish 1 0; EFinish 0 1; EKill [2]; EFailed [0] []].
+Proof. vm_compute. reflexivity. Qed.
 
 (* the example plan meets the hypothesis of the theorems above *)
 Example C03_example_plan_is_wf : wf_plan ex_plan.
